@@ -21,6 +21,9 @@ CHECKS = {
  'C06': dict(text="Machine-checked Lean 4 proofs for every n and commutative ring, with no signature in the statements: b^rc(b)=I and lc(b)^b=I for every basis blade, complements linear and mutually inverse, grade r -> n-r; vee defined as coded (lc(rc A ^ rc B)) satisfies rc(A&B)=rc A^rc B, is associative, has I as identity and maps grades (r,s) to r+s-n; I*I is the scalar table entry the code reads and Iinv is the two-sided inverse of I when that entry is invertible; the combinations-order reverse-complement law (all n, list level) and its executable instance n<=8. Tied to /repo by comparing the complement sign lists and complement/dual/vee results with the executable model, and by evaluating each law on the real operators for all signatures (degenerate included), both JIT configurations.",
              technique="Lean 4 proof (signature-free wedge sign, complement bitmaps) + correspondence with the executable model",
              design="§6 C06"),
+ 'C07': dict(text="Machine-checked Lean 4 proofs: for every duplicate-free tuple of id positions the loop of tuple_as_sign_and_bitmap (with the code-shaped swap-count loop) returns (-1)^(number of inversions), i.e. the sign of the sorting permutation, and the union bitmap; any repeated id takes the ValueError branch; write-then-read through a signed key; M(g) keeps exactly grade g, is 0 beyond the dimension, projections are orthogonal idempotents summing to M; (e_i|e_j)[()] = diag(sig). Tied to /repo by comparing tuple_as_sign_and_bitmap, M(g..) and grades() with the executable model, and by evaluating names/blades/basis_vectors_lst/blades_of_grade/scalar/metric, M[(ids)] for every permutation of id subsets, M[blade], error branches and the projection laws on the real library for default and custom ids/orders/names/firstIdx.",
+             technique="Lean 4 proof (inversion-count induction over the tuple loop; grade-projection algebra) + correspondence with the executable model",
+             design="§6 C07"),
 }
 
 def main():
